@@ -6,6 +6,7 @@ import (
 	"errors"
 	"fmt"
 	"io"
+	"runtime"
 
 	"github.com/aperturerobotics/bifrost/util/rwc"
 	"verifharness/internal/hx"
@@ -22,12 +23,23 @@ type readObs struct {
 func c09(c *hx.Ctx) {
 	c.Type = "c09_case"
 	c.Agree = "c09_agree"
-	c.Rule = "rwc.Conn over a re-chunked stream: written data 0..300 bytes (some 2000..5000 to cross connPktSize), chunkings 1-byte / all-at-once / random, reader buffer sizes from {0,1,2,3,7,16,100,2047,2048,4096} per Read, underlying end = io.EOF or a reset error (sometimes delivered together with the last bytes); Conn.Write over short-writing / failing writers; non-trivial = distinct run that returned data"
+	c.Rule = "rwc.Conn over a re-chunked stream: written data 0..300 bytes (some 2000..5000 to cross connPktSize), chunkings 1-byte / all-at-once / random, reader buffer sizes from {0,1,2,3,7,16,100,2047,2048,4096} per Read, underlying end = io.EOF or a reset error (sometimes delivered together with the last bytes); lagging reader: position-coded data (byte at offset i = f(i)) arriving in small fixed / mixed chunks over time, reader takes 1-2 packets, falls up to channel capacity behind, drains with 4096-byte buffers, 3/4 of the runs with GOMAXPROCS(1); Conn.Write over short-writing / failing writers; non-trivial = distinct run that returned data"
 	sizes := []int{0, 1, 2, 3, 7, 16, 100, 2047, 2048, 4096}
 	for i := 0; i < c.N; i++ {
 		i := i
 		if p, v := hx.Catch(func() { c09read(c, i, sizes) }); p {
 			c.Failf("scenario-panic", map[string]any{"kind": "c09/read", "index": i, "panic": fmt.Sprint(v)}, "read scenario %d panicked (implementation or harness): %v", i, v)
+		}
+	}
+	// lagging reader over a stream whose chunks arrive over time
+	lag := c.N / 8
+	if lag < 16 {
+		lag = 16
+	}
+	for i := 0; i < lag; i++ {
+		i := i
+		if p, v := hx.Catch(func() { c09lag(c, i) }); p {
+			c.Failf("scenario-panic", map[string]any{"kind": "c09/lagging-reader", "index": i, "panic": fmt.Sprint(v)}, "lagging-reader scenario %d panicked (implementation or harness): %v", i, v)
 		}
 	}
 	// Conn.Write
@@ -130,6 +142,141 @@ func c09read(c *hx.Ctx, i int, sizes []int) {
 		c.Nontrivial(fmt.Sprint(chunks, bufs, n))
 	}
 	connOracle(c, data, obs, ecls, big, desc)
+}
+
+// posByte is the position code: the byte at stream offset i (Frame/Run.v posdata).
+func posByte(i int) byte { return byte(i*7 + i/256*13) }
+
+// c09lag: position-coded data arrives in small / mixed chunks over time; the
+// reader takes a packet or two, then lags while up to channel-capacity packets
+// queue up behind it, then drains with large buffers. No read may report
+// ErrShortBuffer, so every byte returned must be the byte of the next unread
+// offset. Most runs pin GOMAXPROCS(1) so that buffers recycled by the reader
+// are handed straight back to the pump.
+func c09lag(c *hx.Ctx, idx int) {
+	single := c.Rng.Intn(4) != 0
+	if single {
+		old := runtime.GOMAXPROCS(1)
+		defer runtime.GOMAXPROCS(old)
+	}
+	nch := 12 + c.Rng.Intn(14)
+	fixed := []int{64, 100, 200, 256, 300, 333, 500, 700}[c.Rng.Intn(8)]
+	mixed := c.Rng.Intn(3) == 0
+	chunks := make([]int, nch)
+	total := 0
+	for k := range chunks {
+		chunks[k] = fixed
+		if mixed {
+			chunks[k] = 40 + c.Rng.Intn(460)
+		}
+		total += chunks[k]
+	}
+	data := make([]byte, total)
+	for k := range data {
+		data[k] = posByte(k)
+	}
+	capN := []int{0, 0, 4, 10, 16}[c.Rng.Intn(5)]
+	capEff := capN
+	if capEff <= 0 {
+		capEff = 10
+	}
+	src := newGatedStream(data, chunks)
+	conn := rwc.NewConn(context.Background(), src, addr("l"), addr("r"), capN)
+	var bufs []int
+	var obs []readObs
+	ends := 0
+	readOne := func() {
+		bl := 4096
+		buf := make([]byte, bl)
+		k, err := conn.Read(buf)
+		bufs = append(bufs, bl)
+		switch {
+		case err == nil:
+			obs = append(obs, readObs{data: append([]byte{}, buf[:k]...)})
+		case errors.Is(err, io.ErrShortBuffer):
+			obs = append(obs, readObs{data: append([]byte{}, buf[:k]...), short: true})
+		default:
+			ends++
+			e := 98
+			if errors.Is(err, io.EOF) {
+				e = 1
+			}
+			if k != 0 {
+				e = 97
+			}
+			obs = append(obs, readObs{end: e})
+		}
+	}
+	var sched []string
+	released := 0
+	rel := func(n int) {
+		if released+n > nch {
+			n = nch - released
+		}
+		if n > 0 {
+			src.release(n)
+			released += n
+			src.settle()
+			sched = append(sched, fmt.Sprintf("release %d", n))
+		}
+	}
+	// read a packet or two early, lag, read a little, lag again ...
+	for round := 0; round < 3 && released < nch; round++ {
+		first := 1 + c.Rng.Intn(2)
+		rel(first)
+		for k := 0; k < first && len(obs) < released; k++ {
+			readOne()
+		}
+		sched = append(sched, fmt.Sprintf("read %d", first))
+		rel(1 + c.Rng.Intn(capEff+2)) // fall up to capacity (+ the packet the pump holds) behind
+	}
+	rel(nch)
+	for ends < 2 && len(obs) < 4*nch+8 {
+		readOne()
+	}
+	sched = append(sched, "drain")
+	terms := make([]string, len(obs))
+	var od []string
+	for k, o := range obs {
+		if o.end != 0 {
+			terms[k] = hx.App("OEnd", hx.Nat(o.end))
+			od = append(od, fmt.Sprintf("end:%d", o.end))
+		} else {
+			terms[k] = hx.App("OData", hx.Bytes(o.data), hx.Bool(o.short), "[]")
+			od = append(od, fmt.Sprintf("%d:%v", len(o.data), o.short))
+		}
+	}
+	desc := map[string]any{"kind": "conn/lagging-reader", "gomaxprocs1": single, "len": total, "data": "byte at offset i = (i*7 + i/256*13) mod 256", "chunks": chunks, "channel_capacity": capEff, "schedule": sched, "buffer": 4096, "reads": od}
+	if idx < 5 { // also a Coq case (position-coded data is an expression, the observations are literals)
+		c.Case(hx.App("Cn", natList(chunks), fmt.Sprintf("(posdata %d%%nat)", total), hx.Nat(1), natList(bufs), hx.List(terms)), desc)
+	} else {
+		c.Eval()
+	}
+	c.Class("conn/lagging-reader")
+	c.Nontrivial(fmt.Sprint("lag", chunks, sched))
+	// which read first returned a byte that is not the byte of its offset
+	off := 0
+	for k, o := range obs {
+		if o.end != 0 {
+			continue
+		}
+		for j, b := range o.data {
+			if off+j >= total || b != posByte(off+j) {
+				want := -1
+				if off+j < total {
+					want = int(posByte(off + j))
+				}
+				c.Failf("bytes-lost-or-reordered", desc, "read %d returned byte %d at stream offset %d where the writer wrote %d (no read reported ErrShortBuffer): queued data was lost, duplicated or overwritten", k, b, off+j, want)
+				return
+			}
+		}
+		if o.short {
+			c.Failf("short-buffer-with-big-buffer", desc, "read %d with a 4096-byte buffer reported ErrShortBuffer", k)
+			return
+		}
+		off += len(o.data)
+	}
+	connOracle(c, data, obs, 1, true, desc)
 }
 
 func c09write(c *hx.Ctx) {
